@@ -26,7 +26,7 @@ Proof.
     + cbn [colsum] in *.
       (* only possible when B = []: then bval B = 0 *)
       destruct B as [|b tb].
-      * cbn [bval]. lia.
+      * cbn [bval] in *. lia.
       * cbn [map add_wire] in E. destruct cols; discriminate.
     + cbn [colsum] in *. rewrite IH. lia.
 Qed.
